@@ -13,7 +13,7 @@ func init() {
 		Run: runC08,
 		Decided: "every send on the provider result channel is on the true edge of the dedup-and-count gate called on the value sent (R1); inside the gate the set update is under its mutex and its condition implies (absent, or present without addresses while the new record has some) and (size < count or find-all), decided by truth-table over the condition's atoms so `<=`/`>=0` variants fail (R2); " +
 			"the stop function is equivalent to `!findAll && size >= count`, the per-peer function and the local phase return early under the same condition, and the follow-up stage is not entered once the stop condition holds (R3); yielded values are elements of the local provider store's answer or of the queried peer's provider list (R4); " +
-			"the dual merge yields only unseen IDs while `zeroCount || count > 0`, records the ID and decrements in the same select arm, and closes the channel and cancels the request context by defer (R5); the result channel is closed by a defer registered before any return (R6).",
+			"the dual merge yields only unseen IDs while `zeroCount || count > 0`, records the ID and decrements in the same select arm, and closes the channel and cancels the request context by defer (R5); the result channel is closed by a defer registered before any return (R6). Added after the seeded rounds: every return of the gate that may be true is dominated by the store (R2); after a locally yielded provider the lookup starts only behind a test of the accepted count (R3); the dual merger yields only what it has just received from an inner search, and both inner searches run under the request context (R5).",
 		NotDecided: "arrival-order dependent counts; what remote peers report.",
 	})
 }
